@@ -185,8 +185,12 @@ def impl_init():
     from harness import implutil as U
 
     def impl(c):
-        pkt = U.scapy_from_spec(c["spec"])
         db = U.load_db("\n".join(c["lines"]) + "\n")
+        if (len(c["lines"]) + c["md"] + c["syn_mss"]) % 4 == 0:
+            # one long-lived Scapy object, fingerprinted before while it had another TTL, then updated in place
+            pkt = U.scapy_reused(c["spec"], lambda o: fingerprint_tcp(o, options=Options(database=db)))
+        else:
+            pkt = U.scapy_from_spec(c["spec"])
         try:
             parsed = parse_packet(pkt)
         except PacketError:
